@@ -245,6 +245,9 @@ fn step(table: &bs::Table, w: &mut TagWriter<ScriptDest>, call: &Call, h: &mut H
     rep.clause("C10: bytes handed to the destination are never retracted or altered (dest is a prefix of dest')", post.dest.starts_with(&pre.dest), || ctx(h));
     match (&r, &exp) {
         (Err(e), _) if is_io(e) => {}
+        (Err(_), Exp::Rejected(_)) if matches!(call, Call::Flush) => {
+            rep.clause("C19: a rejected flush() leaves dest, working buffer and open masters unchanged", post == pre, || ctx(h));
+        }
         (Err(_), Exp::Rejected(_)) => {
             rep.clause("C19: a rejected (non-I/O) write leaves dest, working buffer and open masters unchanged", post == pre, || ctx(h));
         }
@@ -342,34 +345,41 @@ pub fn unit_writer(depth: usize, thorough: bool) -> Report {
     let mut rep = Report::new("bx_writer");
     let alpha = alphabet(thorough);
     rep.notes.push(format!("BOUNDED: {} calls in the alphabet, all call sequences of length <= {}, destination chunk sizes {{whole, 1, 3}}", alpha.len(), depth));
-    let mut idx = vec![0usize; depth];
-    // enumerate all sequences of length exactly `depth` (every prefix is checked on the way)
-    loop {
-        let seq: Vec<&Call> = idx.iter().map(|i| &alpha[*i]).collect();
-        let base = run_seq(&table, &seq, 0, &mut rep);
-        rep.cases += 1;
-        if !base.is_empty() { rep.nontrivial += 1; }
-        if rep.cases % 7 == 0 || depth <= 2 {
-            for chunk in [1usize, 3] {
-                let mut quiet = Report::new("q");
-                let other = run_seq(&table, &seq, chunk, &mut quiet);
-                rep.clause("C09: the bytes delivered do not depend on how the destination splits them into partial writes", other == base,
-                           || format!("seq=[{}] chunk={}", seq.iter().map(|c| show_call(c)).collect::<Vec<_>>().join(" ; "), chunk));
+    // the enumeration is split over worker threads by the first call of the sequence
+    let mut handles = Vec::new();
+    for first in 0..alpha.len() {
+        let alpha = alpha.clone();
+        handles.push(std::thread::Builder::new().stack_size(64 << 20).spawn(move || {
+            let table = bs::doc_table();
+            bs::set_table(table.clone());
+            let mut rep = Report::new("worker");
+            let mut idx = vec![0usize; depth];
+            idx[0] = first;
+            loop {
+                let seq: Vec<&Call> = idx.iter().map(|i| &alpha[*i]).collect();
+                let base = run_seq(&table, &seq, 0, &mut rep);
+                rep.cases += 1;
+                if !base.is_empty() { rep.nontrivial += 1; }
+                if rep.cases % 7 == 0 || depth <= 2 {
+                    for chunk in [1usize, 3] {
+                        let mut quiet = Report::new("q");
+                        let other = run_seq(&table, &seq, chunk, &mut quiet);
+                        rep.clause("C09: the bytes delivered do not depend on how the destination splits them into partial writes", other == base,
+                                   || format!("seq=[{}] chunk={}", seq.iter().map(|c| show_call(c)).collect::<Vec<_>>().join(" ; "), chunk));
+                    }
+                }
+                if rep.samples.len() < 1 && rep.cases % 997 == 1 { rep.samples.push(format!("[{}] -> {}", seq.iter().map(|c| show_call(c)).collect::<Vec<_>>().join(" ; "), rf::hex(&base))); }
+                let mut k = depth;
+                let mut done = true;
+                while k > 1 { k -= 1; idx[k] += 1; if idx[k] < alpha.len() { done = false; break; } idx[k] = 0; }
+                if done { break; }
             }
-        }
-        if rep.samples.len() < 6 && rep.cases % 997 == 1 { rep.samples.push(format!("[{}] -> {}", seq.iter().map(|c| show_call(c)).collect::<Vec<_>>().join(" ; "), rf::hex(&base))); }
-        // next index vector
-        let mut k = depth;
-        loop {
-            if k == 0 { return rep; }
-            k -= 1;
-            idx[k] += 1;
-            if idx[k] < alpha.len() { break; }
-            idx[k] = 0;
-        }
+            rep
+        }).unwrap());
     }
+    for h in handles { match h.join() { Ok(r) => rep.merge(r), Err(_) => rep.clause("C19/C05w: writer calls do not panic on consistent specifications", false, || "a worker thread of the enumeration died".to_string()) } }
+    rep
 }
-
 
 /// Boundary lattice for the payload encoders (bounded companion of the Kani harnesses k_w_*; gives concrete inputs
 /// fast): every value 2^k + d, -(2^k) + d for k in 0..=63, d in -2..=2, plus extremes, through the REAL writer and
